@@ -379,7 +379,11 @@ func genLoopDL(r *Rng, idx int, tier string, step func(op string) string) {
 				b += r.Pick(1, ln)
 			}
 		}
-		if !gated && r.Chance(10) {
+		hangupPct := 10
+		if data != "true" {
+			hangupPct = 50 // corrupt senders like to leave before the verdict
+		}
+		if !gated && r.Chance(hangupPct) {
 			// the peer hangs up right behind this block: if the block completes a piece, the disconnect and the
 			// hash verdict race in the loop; a corrupt sender must be banned in either order
 			o := step(fmt.Sprintf("msg p=%d t=piece i=%d b=%d l=%d data=%s hangup=1", p.k, i, b, ln, data))
